@@ -786,6 +786,22 @@ Proof.
   apply exported_centre_closed; auto.
 Qed.
 
+(* the two cases of the placement area of DensityGrid::fromIspdCircuit (repair of finding F28) *)
+Lemma circuit_grid_area_nonempty : forall margin rows cells,
+  clip_rows margin (map rr (compute_rows_circuit rows [] cells)) <> [] ->
+  circuit_grid_area margin rows cells = grid_area margin (map rr (compute_rows_circuit rows [] cells)).
+Proof.
+  intros margin rows cells Hne. unfold circuit_grid_area. cbv zeta.
+  destruct (clip_rows margin (map rr (compute_rows_circuit rows [] cells))) eqn:E; [congruence|reflexivity].
+Qed.
+
+Lemma circuit_grid_area_empty : forall margin rows cells,
+  clip_rows margin (map rr (compute_rows_circuit rows [] cells)) = [] ->
+  circuit_grid_area margin rows cells = bbox (map rr rows).
+Proof.
+  intros margin rows cells E. unfold circuit_grid_area. cbv zeta. rewrite E. reflexivity.
+Qed.
+
 (* [F] DensityGrid::fromIspdCircuit: both limit lists are strictly increasing and lie inside the placement
    area, which lies inside the bounding box of the rows *)
 Lemma grid_of_circuit_limits : forall margin maxSize rows cells lx ly,
@@ -802,7 +818,8 @@ Proof.
   intros margin maxSize rows cells lx ly Hm Hs Hne Hg a R.
   destruct (grid_area_inside margin rows cells Hm Hne) as (A & B & Cx & Cy & Mx1 & Mx2).
   fold a in A, Cx, Cy, Mx1, Mx2. fold R in B.
-  unfold grid_of_circuit in Hg. fold a in Hg. inversion Hg; subst lx ly; clear Hg.
+  unfold grid_of_circuit in Hg. rewrite (circuit_grid_area_nonempty margin rows cells Hne) in Hg.
+  fold a in Hg. inversion Hg; subst lx ly; clear Hg.
   assert (AR : rect_in a R) by (eapply rect_in_trans; eauto).
   assert (Lx : limits_ok (minX a) (maxX a) (limits (minX a) (maxX a) maxSize)).
   { intros i j l h Hij Hi Hj. eapply limits_spec; eauto. }
@@ -813,6 +830,63 @@ Proof.
   split; [exact Lx|]. split; [exact Ly|]. split.
   - intros i j l h Hij Hi Hj. destruct (Lx i j l h Hij Hi Hj). unfold rect_in in AR. lia.
   - intros i j l h Hij Hi Hj. destruct (Ly i j l h Hij Hi Hj). unfold rect_in in AR. lia.
+Qed.
+
+(* a circuit with a row of positive width and height: the bounding box of its rows is not degenerate *)
+Definition has_proper_row (rows : list row) : Prop :=
+  exists r, In r rows /\ (minX (rr r) < maxX (rr r))%Z /\ (minY (rr r) < maxY (rr r))%Z.
+
+Lemma rows_bbox_nondegenerate : forall rows, has_proper_row rows ->
+  (minX (bbox (map rr rows)) < maxX (bbox (map rr rows)))%Z /\ (minY (bbox (map rr rows)) < maxY (bbox (map rr rows)))%Z.
+Proof.
+  intros rows (r & Hr & Hx & Hy).
+  pose proof (bbox_contains (map rr rows) (rr r) (in_map rr rows r Hr)) as Hin. unfold rect_in in Hin. lia.
+Qed.
+
+(* [F] finding F28, repaired code: when no free row survives the clipping (every row covered by fixed obstructions,
+   or only pieces not wider than twice the margin left) the grid is the grid of the bounding box of the circuit's
+   rows; its limits are strictly increasing inside that box in each direction in which the box has extent *)
+Lemma grid_of_circuit_without_free_space : forall margin maxSize rows cells,
+  (1 <= maxSize)%Z ->
+  clip_rows margin (map rr (compute_rows_circuit rows [] cells)) = [] ->
+  let R := bbox (map rr rows) in
+  circuit_grid_area margin rows cells = R /\
+  grid_of_circuit margin maxSize rows cells = (limits (minX R) (maxX R) maxSize, limits (minY R) (maxY R) maxSize) /\
+  ((minX R < maxX R)%Z -> limits_ok (minX R) (maxX R) (fst (grid_of_circuit margin maxSize rows cells))) /\
+  ((minY R < maxY R)%Z -> limits_ok (minY R) (maxY R) (snd (grid_of_circuit margin maxSize rows cells))).
+Proof.
+  intros margin maxSize rows cells Hs E R.
+  pose proof (circuit_grid_area_empty margin rows cells E) as HA. fold R in HA.
+  assert (HG : grid_of_circuit margin maxSize rows cells =
+               (limits (minX R) (maxX R) maxSize, limits (minY R) (maxY R) maxSize)).
+  { unfold grid_of_circuit. rewrite HA. reflexivity. }
+  split; [exact HA|]. split; [exact HG|]. rewrite HG. cbn [fst snd]. split.
+  - intros Hx i j l h Hij Hi Hj. eapply limits_spec; eauto.
+  - intros Hy i j l h Hij Hi Hj. eapply limits_spec; eauto.
+Qed.
+
+(* [F] every circuit with a row of positive width and height, ANY fixed cells and obstructions (no hypothesis on
+   what the clipping leaves): the placement area of the density grid lies inside the bounding box of the rows
+   and all bin limits lie inside that box, strictly increasing *)
+Lemma grid_of_circuit_limits_all : forall margin maxSize rows cells lx ly,
+  (0 <= margin)%Z -> (1 <= maxSize)%Z -> has_proper_row rows ->
+  grid_of_circuit margin maxSize rows cells = (lx, ly) ->
+  let a := circuit_grid_area margin rows cells in
+  let R := bbox (map rr rows) in
+  rect_in a R /\ (minX a < maxX a)%Z /\ (minY a < maxY a)%Z /\
+  limits_ok (minX a) (maxX a) lx /\ limits_ok (minY a) (maxY a) ly /\
+  limits_ok (minX R) (maxX R) lx /\ limits_ok (minY R) (maxY R) ly.
+Proof.
+  intros margin maxSize rows cells lx ly Hm Hs Hrow Hg a R.
+  destruct (clip_rows margin (map rr (compute_rows_circuit rows [] cells)) ) as [|c0 t] eqn:E.
+  - destruct (rows_bbox_nondegenerate rows Hrow) as (Nx & Ny). fold R in Nx, Ny.
+    destruct (grid_of_circuit_without_free_space margin maxSize rows cells Hs E) as (HA & HG & Lx & Ly).
+    fold R in HA, HG, Lx, Ly. fold a in HA. rewrite Hg in Lx, Ly. cbn [fst snd] in Lx, Ly.
+    rewrite HA. split; [unfold rect_in; lia|]. split; [exact Nx|]. split; [exact Ny|]. auto.
+  - assert (Hne : clip_rows margin (map rr (compute_rows_circuit rows [] cells)) <> []) by (rewrite E; discriminate).
+    destruct (grid_of_circuit_limits margin maxSize rows cells lx ly Hm Hs Hne Hg) as (AR & _ & Lx & Ly & LRx & LRy).
+    destruct (grid_area_inside margin rows cells Hm Hne) as (_ & _ & Cx & Cy & _).
+    unfold a. rewrite (circuit_grid_area_nonempty margin rows cells Hne). auto 10.
 Qed.
 
 (* [F] the returned placement is the blend up to the rounding of std::round: for every movable cell,
